@@ -28,7 +28,9 @@ vars == <<l, st, cfg, pend>>
 
 Ev == Trace[l]
 
-CfgOf(c) == [DefaultCfg EXCEPT !.versioned = c.versioned, !.paginate = c.paginate, !.single = c.single]
+CfgOf(c) == [DefaultCfg EXCEPT !.versioned = c.versioned, !.paginate = c.paginate, !.single = c.single,
+                            !.auto = IF "auto" \in DOMAIN c THEN c.auto ELSE FALSE]
+            @@ [autosteps |-> IF "autosteps" \in DOMAIN c THEN c.autosteps ELSE FALSE]
 InitOf(ev) ==
   LET bs == ToSet(ev.buckets) IN
   [InitState EXCEPT !.bk = [b \in bs |-> [ver |-> ev.versioning, objs |-> <<>>]]]
@@ -56,16 +58,42 @@ Crash == /\ l <= Len(Trace) /\ Ev.t = "crash"
          /\ pend' = <<>>
          /\ l' = l + 1 /\ UNCHANGED <<st, cfg>>
 
+\* ---- the auto-bucket option as the front end performs it (MC_FrontEnd.tla) ----
+\* With cfg.autosteps a bucket-scoped request is not one transition but up to three, as in the code: the existence
+\* check, the creation of a missing bucket, and the call (which the backend answers without creating anything).
+\* Histories recorded with the option are decided against this, the front end's actual design; that the design is
+\* not atomic is finding F35 (shown on the model by MC_FrontEnd, on the code by the schedule explorer).
+Decomposed(c) == "autosteps" \in DOMAIN cfg /\ cfg.autosteps /\ cfg.auto /\ pend[c].op.op # "CreateBucket"
+Phase(c, p) == pend' = [pend EXCEPT ![c] = [@ EXCEPT !.ph = p]]
+Reply(c, r) == pend' = [pend EXCEPT ![c] = [op |-> @.op, ph |-> "lin", r |-> r]]
+AutoCheck(c) ==
+  /\ pend[c].ph = "inv" /\ Decomposed(c)
+  /\ Phase(c, IF HasB(st, pend[c].op.b) THEN "chk" ELSE "miss")
+  /\ UNCHANGED <<l, st, cfg>>
+AutoCreate(c) ==
+  /\ pend[c].ph = "miss"
+  /\ IF HasB(st, pend[c].op.b)             \* created by somebody else meanwhile: reported as NoSuchBucket
+       THEN st' = st /\ Reply(c, [st |-> 404, code |-> "NoSuchBucket"])
+       ELSE st' = [st EXCEPT !.bk = Upd(@, pend[c].op.b, NewBucket)] /\ Phase(c, "chk")
+  /\ UNCHANGED <<l, cfg>>
+AutoCall(c) ==
+  /\ pend[c].ph = "chk" /\ pend[c].op.op # "CopyObject"
+  /\ IF pend[c].op.op = "HeadBucket"
+       THEN st' = st /\ Reply(c, [st |-> 200, code |-> ""])
+       ELSE \E res \in Step(st, [cfg EXCEPT !.auto = FALSE], pend[c].op) : st' = res.st /\ Reply(c, res.r)
+  /\ UNCHANGED <<l, cfg>>
+AutoStep(c) == AutoCheck(c) \/ AutoCreate(c) \/ AutoCall(c)
+
 \* ---- silent linearization steps ----
 Lin(c) ==
-  /\ pend[c].ph = "inv" /\ pend[c].op.op # "CopyObject"
+  /\ pend[c].ph = "inv" /\ pend[c].op.op # "CopyObject" /\ ~Decomposed(c)
   /\ \E res \in Step(st, cfg, pend[c].op) :
        /\ st' = res.st
        /\ pend' = [pend EXCEPT ![c] = [op |-> @.op, ph |-> "lin", r |-> res.r]]
   /\ UNCHANGED <<l, cfg>>
 
 CopyRd(c) ==
-  /\ pend[c].ph = "inv" /\ pend[c].op.op = "CopyObject"
+  /\ pend[c].ph = (IF Decomposed(c) THEN "chk" ELSE "inv") /\ pend[c].op.op = "CopyObject"
   /\ LET op == pend[c].op
          rd == IF HasB(st, op.b) THEN CopyRead(st, cfg, op) ELSE [ok |-> FALSE, code |-> "NoSuchBucket"] IN
      pend' = [pend EXCEPT ![c] = IF rd.ok THEN [op |-> op, ph |-> "mid", v |-> rd.v]
@@ -121,7 +149,7 @@ Final == /\ l <= Len(Trace) /\ Ev.t = "final"
 \* step commutes with every later invocation event and can be postponed to the next event of another kind.
 SilentOK == l <= Len(Trace) /\ Ev.t \in {"res", "final", "crash"}
 Next == Reset \/ Inv \/ Res \/ Final \/ Crash
-        \/ (SilentOK /\ \E c \in DOMAIN pend : Lin(c) \/ CopyRd(c) \/ CopyWr(c))
+        \/ (SilentOK /\ \E c \in DOMAIN pend : Lin(c) \/ CopyRd(c) \/ CopyWr(c) \/ AutoStep(c))
 Spec == Init /\ [][Next]_vars
 
 \* A restricted search used first when there are many clients: an operation takes effect either right
@@ -131,7 +159,7 @@ AtOwnEdge(c) == \/ (l <= Len(Trace) /\ Ev.t = "res" /\ Ev.c = c)
                 \/ (l > 1 /\ Trace[l - 1].t = "inv" /\ Trace[l - 1].c = c)
                 \/ (l <= Len(Trace) /\ Ev.t \in {"final", "crash"})
 NextEdge == Reset \/ Inv \/ Res \/ Final \/ Crash
-            \/ (\E c \in DOMAIN pend : AtOwnEdge(c) /\ (Lin(c) \/ CopyRd(c) \/ CopyWr(c)))
+            \/ (\E c \in DOMAIN pend : AtOwnEdge(c) /\ (Lin(c) \/ CopyRd(c) \/ CopyWr(c) \/ AutoStep(c)))
 SpecEdge == Init /\ [][NextEdge]_vars
 
 \* witness mode (many clients): with a depth-first queue TLC stops at the first
